@@ -6,6 +6,7 @@ import Nsq.Model.Aggregate
 import Nsq.Model.AggregateWire
 import Nsq.Gen.AdminRoutes
 import Nsq.Model.Fetch
+import Nsq.Model.Latency
 /-! Driver for engine E7 (nsqadmin): one operation per input line, one canonical answer line out.
 
   routes                      → the regenerated route table, `METHOD /path handler;…`
@@ -180,6 +181,29 @@ def getv1 (toks : List String) : String :=
     let tls := (r.2.filter (fun e => e.https && e.port == 2)).length
     (if r.1 == .ok then "ok" else "failed") ++ s!" {plain} {tls}"
 
+/-- `lat <fresh|first> <k> <p:…> × k`: the shape of the latency aggregate (`Nsq.Model.Latency`, tree with F24). -/
+def lat (toks : List String) : String :=
+  match toks with
+  | start :: _ :: docs =>
+    let parsed := docs.map (fun d => Nsq.Model.AggregateWire.e2eTok [d])
+    if parsed.any (·.isNone) then "bad-op"
+    else
+      let ds : List (List Nsq.Model.Latency.Pct) := parsed.filterMap (fun x => x.map (·.1.2))
+      let render (l : List Nsq.Model.Latency.Pct) : String :=
+        String.intercalate "," (((l.map Nsq.Model.Latency.key).mergeSort (fun a b => decide (a ≤ b))).map toString)
+      match Nsq.Model.Latency.decodeAll true ds with
+      | .error _ => "panic decode"
+      | .ok dec =>
+        let r :=
+          if start == "fresh" then Nsq.Model.Latency.addAll [] dec
+          else match dec with
+            | [] => .ok []
+            | d0 :: rest => Nsq.Model.Latency.addAll d0 rest
+        match r with
+        | .error _ => "panic add"
+        | .ok l => if dec.isEmpty then "ok nil" else "ok " ++ render l
+  | _ => "bad-op"
+
 end E7
 
 def stepLine (line : String) : String :=
@@ -189,6 +213,7 @@ def stepLine (line : String) : String :=
   | "view" :: toks => Nsq.Model.AggregateWire.viewLine toks
   | "fan" :: toks => E7.fan toks
   | "getv1" :: toks => E7.getv1 toks
+  | "lat" :: toks => E7.lat toks
   | _ => "bad-op"
 
 partial def loop (h : IO.FS.Stream) (out : IO.FS.Stream) : IO Unit := do
